@@ -110,7 +110,7 @@ def null_vector(P0, n):
     return [int(x * den) for x in q]
 
 
-def make_answer(rng, n, m, solve_no, sent, fail=False):
+def make_answer(rng, n, m, solve_no, sent, fail=False, answer_no=0):
     """the injected answer for a problem with n leaf points, m leaf expressions and the given sent items"""
     if fail:
         return None, None
@@ -134,10 +134,10 @@ def make_answer(rng, n, m, solve_no, sent, fail=False):
     for k, it in enumerate(sent):
         if type(it).__name__ == "PSDMatrix":
             s = it.shape[0]
-            duals.append(np.array([[float(Fraction(64 * solve_no + k + 1) + Fraction(i, 4) + Fraction(j, 16))
+            duals.append(np.array([[float(Fraction(64 * solve_no + k + 1 + 4096 * answer_no) + Fraction(i, 4) + Fraction(j, 16))
                                     for j in range(s)] for i in range(s)]))
         else:
-            duals.append(float(Fraction(64 * solve_no + k + 1, 8)))
+            duals.append(float(Fraction(64 * solve_no + k + 1, 8) + 512 * answer_no))
     Gf = np.array([[float(x) for x in row] for row in G]).reshape(n, n)
     assert all(Fraction(Gf[i, j]) == G[i][j] for i in range(n) for j in range(n))
     ans = dict(G=Gf, F=np.array([float(x) for x in F]), duals=duals, residual=np.zeros((n, n)), value=None)
@@ -241,6 +241,39 @@ def err_kind(e):
     return "exception:%s:%s" % (type(e).__name__, s[:60])
 
 
+def class_table_problem(f):
+    """the user-facing certificate of the class constraints (Function.tables_of_constraints /
+    get_class_constraints_duals) must hold the constraint objects of the LATEST generation and their multipliers"""
+    from PEPit import Constraint
+    current = set(id(c) for c in f.list_of_class_constraints)
+    for name, table in f.tables_of_constraints.items():
+        try:
+            cells = list(table.to_numpy().flat)
+        except AttributeError:
+            continue                              # hand-made tables are C17's subject
+        for cell in cells:
+            if isinstance(cell, Constraint) and id(cell) not in current:
+                return dict(table=name, what="table cell is a constraint of an earlier generation")
+    try:
+        duals = f.get_class_constraints_duals()
+    except Exception as e:
+        return dict(what="get_class_constraints_duals raised", error="%s: %s" % (type(e).__name__, str(e)[:120]))
+    for name, table in f.tables_of_constraints.items():
+        try:
+            cells = list(table.to_numpy().flat)
+            vals = list(duals[name].to_numpy().flat)
+        except (AttributeError, KeyError):
+            continue
+        for cell, v in zip(cells, vals):
+            if isinstance(cell, Constraint) and id(cell) in current and float(v) != float(cell.eval_dual()):
+                return dict(table=name, what="dual table differs from the multiplier of the sent constraint")
+    return None
+
+
+def declared_count(declared, it):
+    return sum(1 for x in declared if x is it)
+
+
 def ok_so_far(crashed, fail):
     return crashed is None and not fail
 
@@ -257,7 +290,7 @@ class World(object):
         self.p = PEP()
         self.ops, self.outs, self.trace = [], [], []
         self.objs, self.kinds, self.refs = [], [], {}
-        self.np_, self.ne = 0, 0
+        self.np_, self.ne, self.nf = 0, 0, 0
         self.functions, self.partitions = [], []
         self.metrics = []
         self.solves = []              # per solve: dict(ok, exact, sent_counts, edited_since_last)
@@ -287,6 +320,10 @@ class World(object):
         while self.ne < Expression.counter:
             self.emit("NewLeafE")
             self.ne += 1
+        from PEPit import Function
+        while self.nf < len(Function.list_of_functions):
+            self.emit("DeclFun")
+            self.nf += 1
 
     def reg(self, o, kind):
         self.refs[id(o)] = len(self.objs)
@@ -404,8 +441,9 @@ class World(object):
         self.emit("(MkCons %s %s)" % (coq_eh(e), coq_sense(s)), what="MkCons #%d" % r)
         return c
 
-    def mk_lmi(self, add=False):
-        from PEPit import PSDMatrix, Expression
+    def mk_lmi(self, add=False, fun=None):
+        """fun = index in Function.list_of_functions: the LMI is declared with Function.add_psd_matrix"""
+        from PEPit import PSDMatrix, Expression, Function
         X = self.expr_pool()
         size = self.rng.choice([1, 2, 2, 3])
         M = [[None] * size for _ in range(size)]
@@ -422,7 +460,11 @@ class World(object):
                     M[i][j] = Expression(is_leaf=False, decomposition_dict={1: T.rand_scalar(self.rng)})
                 else:
                     M[i][j] = self.mk_expr() or Expression(is_leaf=False, decomposition_dict={1: 1})
-        if add:
+        if fun is not None:
+            F = Function.list_of_functions[fun]
+            F.add_psd_matrix(M)
+            m = F.list_of_psd[-1]
+        elif add:
             m = self.p.add_psd_matrix(M)
         else:
             m = PSDMatrix(M)
@@ -430,10 +472,51 @@ class World(object):
         self.sync()
         r = self.reg(m, "L")
         self.emit("(MkLmi %s)" % coq_list([coq_list([coq_eh(e) for e in row]) for row in hs]), what="MkLmi #%d" % r)
-        if add:
+        if fun is not None:
+            self.emit("(FAddPsd %s %s)" % (coq_nat(fun), coq_nat(r)))
+            self.edited = True
+        elif add:
             self.emit("(AddPsd %s)" % coq_nat(r))
             self.edited = True
         return m
+
+    def fadd_cons(self, fun, c):
+        from PEPit import Function
+        Function.list_of_functions[fun].add_constraint(c)
+        self.emit("(FAddCons %s %s)" % (coq_nat(fun), coq_nat(self.refs[id(c)])))
+        self.edited = True
+
+    def make_composite(self):
+        """a composite Function (sum / scaling / difference of declared ones): it only carries own items here"""
+        from PEPit import Function
+        fs = list(Function.list_of_functions)
+        if not fs:
+            return
+        a = self.rng.choice(fs)
+        r = self.rng.random()
+        if r < 0.4 and len(fs) > 1:
+            a + self.rng.choice(fs)
+        elif r < 0.7:
+            self.rng.choice([2, 0.5, 3]) * a
+        else:
+            a - self.rng.choice(fs)
+        self.sync()
+        self.edited = True
+
+    def own_item(self, only_lmi=False):
+        """Function.add_constraint / Function.add_psd_matrix on a random (leaf or composite) function"""
+        from PEPit import Function
+        n = len(Function.list_of_functions)
+        if not n:
+            return
+        self.sync()
+        fun = self.rng.randrange(n)
+        if only_lmi or self.rng.random() < 0.5:
+            self.mk_lmi(fun=fun)
+        else:
+            c = self.mk_cons(on_held=self.rng.random() < 0.2)
+            if c is not None:
+                self.fadd_cons(fun, c)
 
     # ---- model edits
     def add_cond(self, c, initial=False):
@@ -524,6 +607,7 @@ class World(object):
         ft, pt = [], []
         for _, f in self.functions:
             saved = (f.list_of_class_constraints, f.list_of_class_psd)
+            saved_tables = dict(f.tables_of_constraints)
             f.list_of_class_constraints, f.list_of_class_psd = [], []
             f.add_class_constraints()
             cons = [(edict_items(c.expression.decomposition_dict), 0 if c.equality_or_inequality == "inequality" else 1)
@@ -536,6 +620,7 @@ class World(object):
                     seen.add(id(x))
                 lmis.append([[edict_items(x.decomposition_dict) for x in row] for row in m.matrix_of_expressions])
             f.list_of_class_constraints, f.list_of_class_psd = saved
+            f.tables_of_constraints = saved_tables
             ft.append((cons, lmis))
         for part in self.partitions:
             saved = part.list_of_constraints
@@ -558,17 +643,18 @@ class World(object):
 
         def plan(w):
             n, m = Point.counter, Expression.counter
-            ans, exact = make_answer(self.rng, n, m, solve_no, w._list_of_constraints_sent_to_solver, fail=fail)
+            box.setdefault("all", [])
+            ans, exact = make_answer(self.rng, n, m, solve_no, w._list_of_constraints_sent_to_solver, fail=fail,
+                                     answer_no=len(box["all"]))
             if ans is not None:
                 ans["value"] = ans["F"][self.p.objective.counter]
-            if "exact" in box and exact is not None:
-                # a heuristic re-solve: the certificate (duals) stays the one of the first answer (pep.py 575),
-                # the primal instance is the one of the last answer
-                exact["duals"] = box["exact"]["duals"]
-                box["answers"] += 1
+                box["all"].append(exact)
+                # the certificate (duals) is the one of the FIRST answer (assign_dual_values runs before the
+                # heuristic, pep.py 575), the primal instance is the one of the LAST answer
+                box["exact"] = dict(exact, duals=box["all"][0]["duals"])
             else:
-                box["answers"] = 1
-            box["exact"] = exact
+                box["exact"] = None
+            box["answers"] = len(box["all"])
             return ans
 
         self.W.plan = plan
@@ -618,8 +704,11 @@ class World(object):
         out = [Point.counter, Expression.counter, [self.p.objective.counter], items]
         ok = (not fail) and crashed is None
         if ok:
-            self.emit("(Solve (Some %s))" % coq_solution(exact), out,
-                      what="Solve#%d ok%s" % (solve_no, (" heuristic=%s" % heuristic) if heuristic else ""))
+            if len(box["all"]) > 1:
+                self.emit("(SolveH %s %s)" % (coq_solution(box["all"][0]), coq_list([coq_solution(e) for e in box["all"][1:]])),
+                          out, what="SolveH#%d ok heuristic=%s answers=%d" % (solve_no, heuristic, len(box["all"])))
+            else:
+                self.emit("(Solve (Some %s))" % coq_solution(exact), out, what="Solve#%d ok" % solve_no)
         else:
             self.emit("(Solve None)", out, what="Solve#%d failed" % solve_no)
         rec = dict(ok=ok, counts=(n_sc, n_lmi, nnz), edited=self.edited, n=Point.counter, m=Expression.counter,
@@ -637,6 +726,16 @@ class World(object):
         ps = [x.counter for x in Point.list_of_leaf_points]
         if ps != list(range(Point.counter)):
             self.problem("leaf-point-registry-broken", counters=ps[-6:], class_counter=Point.counter)
+        from PEPit import Function
+        declared = list(self.p.list_of_constraints) + list(self.p.list_of_psd)
+        for F in Function.list_of_functions:
+            declared += list(F.list_of_constraints) + list(F.list_of_psd)
+        sent_ids = [id(it) for it in sent]
+        for it in declared:
+            if sent_ids.count(id(it)) != declared_count(declared, it):
+                self.problem("declared-item-not-sent-as-often-as-declared", item=type(it).__name__,
+                             declared=declared_count(declared, it), sent=sent_ids.count(id(it)))
+                break
         if [id(m) for m in self.p.list_of_psd] != psd_before:
             self.problem("solve-edited-the-declared-model", what="list_of_psd", before=len(psd_before),
                          after=len(self.p.list_of_psd))
@@ -651,6 +750,11 @@ class World(object):
             if option == "primal" and ret != float(exact["F"][self.p.objective.counter]):
                 self.problem("returned-value-differs", returned=ret)
             self.check_gram()
+            for _, f in self.functions:
+                bad = class_table_problem(f)
+                if bad:
+                    self.problem("class-dual-table-is-not-of-the-latest-solve", **bad)
+                    break
         else:
             self.last_failed = True
             self.sent_failed = set(id(it) for it in sent)
@@ -939,6 +1043,12 @@ def build_model(w, rng, rich):
             conds.append(c)
     if rng.random() < 0.4:
         w.mk_lmi(add=True)
+    if w.functions and rng.random() < 0.6:
+        # own constraints / LMIs of leaf and composite functions; often a function with ONLY an own LMI
+        if rng.random() < 0.6:
+            w.make_composite()
+        for _ in range(rng.randint(1, 2)):
+            w.own_item(only_lmi=rng.random() < 0.5)
     for _ in range(rng.randint(1, 2)):
         X = w.expr_pool()
         x = w.mk_expr() if rng.random() < 0.6 or not X else rng.choice(X)
@@ -1003,6 +1113,11 @@ def gen_c02(case_seed):
 
 
 def edit(w, rng, conds):
+    if w.functions and rng.random() < 0.15:
+        if rng.random() < 0.3:
+            w.make_composite()
+        w.own_item(only_lmi=rng.random() < 0.5)
+        return
     r = rng.random()
     if r < 0.3 and conds:                        # replace the initial condition
         old = conds.pop(rng.randrange(len(conds)))
@@ -1227,6 +1342,9 @@ def real_model(idx, radius=1.0, extra=False):
         p.set_performance_metric((x - xs) ** 2)
         if kind == "gd2":
             p.set_performance_metric(2 * (f(x) - fs) / L + (x - xs) ** 2 / 2)
+            a, b = x0 - xs, x - xs
+            f.add_psd_matrix([[a ** 2, a * b], [a * b, b ** 2]])      # the function has ONLY an own LMI
+            (f + f).add_constraint(a * b <= 12)                       # a composite function with an own constraint (same in every variant of the model)
         if kind == "lmi":
             a, b = x0 - xs, x - xs
             if idx % 12 < 6:
@@ -1334,11 +1452,21 @@ def check_instance(p, h, idx, problems, stats):
     """C02 on a real solve: Gram reproduction, constraints at the instance, objective = min metric,
     primal <= dual + tol, derived objects = combination of their operands (also for objects built now)"""
     from PEPit import Point
+    from PEPit import Function
     heur = bool(h.get("solve_kw"))
     dual = _quiet_solve(p, return_primal_or_dual="dual", **h.get("solve_kw", {}))
     if dual is None:
         problems.append(dict(kind="real-solve-returned-none", model=idx))
         return
+    declared = list(p.list_of_constraints) + list(p.list_of_psd)
+    for F_ in Function.list_of_functions:
+        declared += list(F_.list_of_constraints) + list(F_.list_of_psd)
+    sent_ids = [id(it) for it in p.wrapper._list_of_constraints_sent_to_solver]
+    for it in declared:
+        if sent_ids.count(id(it)) != declared_count(declared, it):
+            problems.append(dict(kind="declared-item-not-sent-as-often-as-declared", model=idx, item=type(it).__name__,
+                                 declared=declared_count(declared, it), sent=sent_ids.count(id(it))))
+            break
     G = np.asarray(p.G_value)
     ev, evec = np.linalg.eigh((G + G.T) / 2)
     Gp = (evec * np.maximum(ev, 0)) @ evec.T
@@ -1407,6 +1535,66 @@ def check_instance(p, h, idx, problems, stats):
         problems.append(dict(kind="G_value-is-not-the-solver-matrix", model=idx))
 
 
+def _tables_ok(p, idx, problems, when):
+    from PEPit import Function
+    for f in Function.list_of_functions:
+        if f.get_is_leaf():
+            bad = class_table_problem(f)
+            if bad:
+                problems.append(dict(kind="class-dual-table-is-not-of-the-latest-solve", model=idx, when=when, **bad))
+                return
+
+
+def check_resolve_linop(problems, stats):
+    """a LinearOperator re-solved after an edit that samples ONLY its adjoint (its class constraints depend on the
+    samples of A.T, a separate Function): value and amounts sent = those of the same model built anew"""
+    from PEPit import PEP, Point
+    from PEPit.operators import LinearOperator
+
+    def declare(p):
+        A = p.declare_function(LinearOperator, L=1.)
+        x = p.set_initial_point()
+        y = A.gradient(x)
+        w = Point()
+        A.T.gradient(w)
+        p.add_constraint(w ** 2 <= 1)
+        p.set_initial_condition(x ** 2 <= 1)
+        p.set_performance_metric(4 * y ** 2)
+        return A, x, y
+
+    def edit_(p, A, x):
+        u = Point()
+        v = A.T.gradient(u)
+        p.add_constraint(u ** 2 <= 1)
+        p.add_constraint(v ** 2 <= 4)
+        p.set_performance_metric(x * v)
+        return u, v
+
+    p = PEP()
+    A, x, y = declare(p)
+    v1 = _quiet_solve(p)
+    u, v = edit_(p, A, x)
+    v2 = _quiet_solve(p)
+    c2 = sent_counts(p)
+    gap = abs(float(np.dot(x.eval(), v.eval()) - np.dot(y.eval(), u.eval())))
+    pf = PEP()
+    Af, xf, yf = declare(pf)
+    edit_(pf, Af, xf)
+    vf = _quiet_solve(pf)
+    cf = sent_counts(pf)
+    stats["linop_diff"] = abs(v2 - vf)
+    if abs(v2 - vf) > 1e-3 * max(1.0, abs(vf)):
+        problems.append(dict(kind="edited-resolve-differs-from-fresh-model", model="linop", edit="sample of the adjoint + metric",
+                             resolved=v2, fresh=vf, first=v1))
+    if c2 != cf:
+        problems.append(dict(kind="growth", model="linop", what="re-solve sends other amounts than the same model built anew",
+                             previous=cf, now=c2))
+    if gap > 1e-4:
+        problems.append(dict(kind="constraint-violated-at-instance", model="linop", what="adjoint identity <x, A^T u> = <A x, u>",
+                             violation=gap))
+    return dict(v1=v1, v2=v2, fresh=vf, counts=(c2, cf))
+
+
 def check_resolve(idx, problems, stats, known_hits):
     """C13 on real solves: unchanged re-solve, radius 1 -> 4, failed solve"""
     p, h = real_model(idx)
@@ -1418,6 +1606,7 @@ def check_resolve(idx, problems, stats, known_hits):
     h1 = float(held.eval())
     v2 = _quiet_solve(p)
     c2 = sent_counts(p)
+    _tables_ok(p, idx, problems, "unchanged re-solve")
     scale = max(1.0, abs(v1))
     stats["resolve_diff"] = max(stats.get("resolve_diff", 0), abs(v1 - v2) / scale)
     if abs(v1 - v2) > 1e-3 * scale:
@@ -1433,6 +1622,7 @@ def check_resolve(idx, problems, stats, known_hits):
     p.set_initial_condition(base ** 2 <= 4)
     v3 = _quiet_solve(p)
     c3 = sent_counts(p)
+    _tables_ok(p, idx, problems, "re-solve after replacing the initial condition")
     held_after = float(held.eval())
     # the newly built equivalent models (built LAST: PEP() resets the class counters p's new objects rely on)
     pe, he = real_model(idx, extra=True)
